@@ -42,7 +42,10 @@ POOL_RUNS = {'quick': 40, 'thorough': 400}
 
 def run_shard(tier, idx, nshards, rec, known):
     outs = [SC.run_profile('plain', judge, nontrivial, rec, known, N[tier], seed() * 1000 + idx)]
-    if idx == 0 and not outs[0].violation:
+    if not outs[0].violation:
+        # part "dfs": every schedule with a bounded number of preemptions for small workloads (exhaustive)
+        outs.append(SC.run_dfs(SC.dfs_workloads('plain', tier), judge, nontrivial, rec, known, idx, nshards))
+    if idx == 0 and not any(o.violation for o in outs):
         # part "pools": the five real backends (threads and process pools) with delay tables
         outs.append(SC.run_pools('plain', rec, known, POOL_RUNS[tier], seed() * 1000 + 999))
     return outs
